@@ -54,6 +54,9 @@ CHECKS = {
     "C16": dict(
         text="Coq theorems over an object-store model of simulated-device instances (channel objects at locations; an instance owns a list of locations; how the default channel set is obtained is regenerated from DummyDev.__init__): frame rule - any sequence of requests, samples and start/stop cycles on one instance leaves every object of a disjoint instance unchanged; instances built by the constructor own disjoint objects in all default/custom combinations (needs the regenerated constant dummy_default_fresh = true); stop;start empties the read queue and resets every generator of the instance and nothing else. Tie: translator reading of the constructor, pinned skeletons of the generator classes / Device.reset / DummyDev.start/stop (drift = obligation broken), and real pairs of DummyDev (identity checks, B vs a B without neighbour, restart with enabled and with disabled channels, every generator: N samples + reset = fresh sequence).",
         design="3/C16", technique="Coq proof (frame rule over an object store, induction over operation sequences) + translator-decided aliasing + differential on real instance pairs"),
+    "C14": dict(
+        text="Coq theorems over the model of the simulated device's request handling (ParseRecv dispatch + the five callbacks, composed from the C02/C05/C06/C17 models): rejected input (padding, noise without an accepted frame, damaged requests) changes nothing and answers nothing; every well-formed request, padded for any write padding, is handled like the unpadded one; enable/divider requests in single/all/bulk form land on exactly the addressed channels with one ACK iff ACK support is advertised; start/stop set the stream flag; common-info / channel-info responses are this device's info (which decodes on the client to the configuration by C06); sampling round: samples only of enabled channels, every enabled generator advances by exactly one. Differential: random device definitions and request sequences with padding/noise/damaged requests on the real DummyDev, responses and state compared after every write; streaming scenario with stop/start cycles checking per-channel continuity.",
+        design="3/C14", technique="Coq proof (composition of the request/info/dispatch theorems; induction over channels for sampling) + differential correspondence on the real simulated device"),
 }
 PENDING = {}
 
